@@ -108,6 +108,12 @@ def ops : List (String × Handler) := [
       pure (ofList ofRead (loadBlock chr mm ids))),
   ("gene_ids_column", fun j => do pure (ofStr (geneIdsColumn (← jStrList (← arg j "iter"))))),
   ("isoforms_key", fun j => do pure (ofList ofStr (isoformsKey (← jStrList (← arg j "iter"))))),
+  ("reference_gene", fun j => do
+      let iter ← jList jStrList (← arg j "introns")
+      let minus ← jStrList (← arg j "minus")
+      let strand ← jStr (← arg j "strand")
+      let ok : String → Bool := fun g => strand == "." || (if minus.contains g then "-" else "+") == strand
+      pure (ofOpt ofStr (selectReferenceGene iter ok))),
   ("group_numbering", fun j => do
       let it ← jStrList (← arg j "iter")
       pure (ofList (fun (p : String × Nat) => Json.arr #[ofStr p.1, ofNat p.2]) (groupNumbering it))),
